@@ -369,7 +369,7 @@ def finish(c):
              "Put k / Get k+2, every returned object checked (non-nil, from the factory or Put, never held twice; nil with ok=false); "
              "segment index of 50+ keys (empty, 64 KiB, invalid UTF-8, hashes at both ends of uint32) x 20 sizes (1 .. 2^20+1) against seg_index; SegmentKeysLock: histories of "
              "TryLock/TryRLock/Lock/RLock/Unlock/RUnlock over 1..64 segments and colliding / empty / long / non-ASCII keys; non-trivial = at least 5 ops incl. a release",
-        assumptions=["fewer than 2^31 - maxTokens simultaneous callers (int32 counter), 0 <= maxTokens < 2^31",
+        assumptions=["fewer than 2^63 - maxTokens simultaneous callers (atomic.Int64 counter since fix 4eb4c45), 0 <= maxTokens < 2^63",
                      "sync/atomic.Int32.Add is atomic and sequentially consistent; sync.RWMutex satisfies the rw specification of SegKeyModel.v (trusted)",
                      "interleavings inside one Go statement are not modelled (each LimitPool statement contains at most one atomic operation)"],
         trusted_base=["Coq 8.16.1 kernel + vm_compute", "extraction ExtrOcamlBasic only", "tools/instrument (yield points), hooks/verifhook, harness/lockstep controller",
